@@ -2,7 +2,8 @@
    configuration).  Only pinned statements, closed by [exact lemma], with Print Assumptions. *)
 From Coq Require Import List NArith Bool.
 From FT Require Import Model.Base Model.Local Model.Records Model.Spsc Model.Collector Model.System
-     Proofs.SpscProofs Proofs.CollectorProofs Proofs.RecordsProofs Proofs.ApiProofs.
+     Proofs.SpscProofs Proofs.CollectorProofs Proofs.RecordsProofs Proofs.ApiProofs Proofs.DeliveryProofs Proofs.SystemDeliveryProofs.
+From Coq Require Import Permutation.
 Import ListNotations.
 Open Scope N_scope.
 
@@ -50,9 +51,78 @@ Theorem C01_records_of_a_set :
     map (fun sp => (trace, r_id sp, eff_parent parent sp)) (filter is_kspan rs).
 Proof. exact copy_trace_and_parents. Qed.
 
+(* EXACTLY ONCE at the collector, default configuration.  [coll_cores cl] lists one (trace,
+   span id, parent) per raw span of kind Span of a collection (the roots of a local set under
+   the collection's parent, the others under their recorded parent); [submitted_colls] turns
+   the SubmitSpans commands of a batch into one collection per token item.  For EVERY batch
+   (any starts, drops, commits and submits, in any order and number, for live, finished or
+   unknown collect ids) and every active map satisfying the cycle invariant (collect ids
+   unique, nothing buffered): what report() receives is, as a multiset, exactly one record
+   per span per token item of what was submitted -- nothing lost, nothing twice, nothing
+   else -- and the invariant holds again afterwards. *)
+Theorem C01_default_batch_delivers_exactly :
+  forall conv am b,
+    cycle_inv am ->
+    Permutation (map core3 (snd (process conv false am b)))
+                (flat_map coll_cores (submitted_colls (b_submit b))) /\
+    cycle_inv (fst (process conv false am b)).
+Proof. exact default_batch_delivers_exactly. Qed.
+
+(* hence over any number of collector cycles, wherever the cuts between them fall: the
+   reports add up to exactly what was submitted *)
+Theorem C01_default_cycles_deliver_exactly :
+  forall conv am bs,
+    cycle_inv am ->
+    Permutation (map core3 (snd (run_batches conv am bs)))
+                (flat_map coll_cores (flat_map (fun b => submitted_colls (b_submit b)) bs)) /\
+    cycle_inv (fst (run_batches conv am bs)).
+Proof. exact default_cycles_deliver_exactly. Qed.
+
+Theorem C01_initial_state_meets_the_invariant : cycle_inv [].
+Proof. exact cycle_inv_empty. Qed.
+
+(* and from the drains: whatever commands successive cycles popped (from any number of
+   threads, cut into cycles anywhere), the reports carry exactly the spans of the popped
+   SubmitSpans commands.  With [C01_channel_thins_only] (popped = sent minus sets refused at a
+   full ring, in order) and [C01_finish_submits_once] this is the chain
+   finish -> command -> ring -> batch -> report, each link for all inputs. *)
+Theorem C01_default_popped_commands_delivered_exactly :
+  forall conv (cycles : list (list command)),
+    Permutation (map core3 (snd (run_batches conv [] (map batch_of cycles))))
+                (flat_map coll_cores (submitted_colls (submits_of (concat cycles)))).
+Proof. exact default_popped_commands_delivered_exactly. Qed.
+
+(* the same at the system level: in the state reached by ANY history (any threads, programs,
+   schedules and capacities) from the initial state, if the default configuration is
+   installed, a process step reports exactly the spans of the SubmitSpans commands the drain
+   has collected into the batch -- each once per token item, nothing else *)
+Theorem C01_every_reachable_default_report_is_exact :
+  forall dbg ringcap stackcap qcap h recs st n,
+    let s := fst (run (sys_init dbg ringcap stackcap qcap) h) in
+    s_cancelable s = false ->
+    snd (step s ACProcess) = OReport recs st n ->
+    Permutation (map core3 recs) (flat_map coll_cores (submitted_colls (b_submit (s_batch s)))).
+Proof. exact reachable_default_report_exact. Qed.
+
+(* non-vacuity: a child span submitted in one cycle and its root (with the commit) in the
+   next are both reported, each once *)
+Example C01_two_cycles_example :
+  let tk := [mkTok 7 100 0 false true] in
+  let child := mkRaw 5 0 10 1 None KSpan 20 in
+  let root := mkRaw 4 0 5 2 None KSpan 30 in
+  let b1 := mkBatch [0] [] [] [(SSpan child, [mkTok 7 4 0 false true])] in
+  let b2 := mkBatch [] [] [0] [(SSpan root, tk)] in
+  map core3 (snd (run_batches (fun x => x) [] [b1; b2])) = [(7, 5, 4); (7, 4, 100)].
+Proof. vm_compute. reflexivity. Qed.
+
 Print Assumptions C01_finish_submits_once.
 Print Assumptions C01_submit_is_one_command.
 Print Assumptions C01_channel_thins_only.
 Print Assumptions C01_no_loss_at_removal.
 Print Assumptions C01_default_nothing_buffered.
 Print Assumptions C01_records_of_a_set.
+Print Assumptions C01_default_batch_delivers_exactly.
+Print Assumptions C01_default_cycles_deliver_exactly.
+Print Assumptions C01_initial_state_meets_the_invariant.
+Print Assumptions C01_default_popped_commands_delivered_exactly.
+Print Assumptions C01_every_reachable_default_report_is_exact.
